@@ -424,7 +424,7 @@ func Contents(names []string) []Content {
 			if cx == "complex" {
 				item = simpleObj("auxItem")
 			}
-			b.Add(AuxA, P(J{"type": "object", "properties": J{"next": J{"$ref": "#/definitions/cnode"}, "a": J{"$ref": "#/definitions/Item"}, "b": J{"$ref": "#/definitions/Item"}}}, "definitions", "cnode"),
+			b.Add(AuxA, P(J{"type": "object", "properties": J{"next": J{"$ref": "#/definitions/cnode"}, "a": J{"$ref": "#/definitions/Item"}, "b": J{"$ref": "#/definitions/Item"}, "c": J{"type": "array", "items": J{"$ref": "#/definitions/Item"}}}}, "definitions", "cnode"),
 				P(item, "definitions", "Item"))
 			b.Add(RootFile, P(J{"type": "integer", "description": "root item"}, "definitions", "item"))
 			b.use("item")
@@ -820,6 +820,14 @@ func OtherFeatures(names []string) []Feature {
 			P(J{"description": "second referrer", "schema": J{"type": "object", "properties": J{"g": J{"$ref": AuxA + "#/definitions/gadget"}}}}, "paths", BasePath, "get", "responses", "430"))
 		b.Add(AuxA, P(simpleObj("auxGadget"), "definitions", "gadget"))
 		b.use("gadget")
+	})
+	add("deepGeneratedNameCollision", "collide-names", func(b *BundleSpec, s int) {
+		// three inline levels under a definition; only names generated for the inner levels exist already (exactly, and up to case)
+		b.Add(RootFile, P(J{"type": "object", "properties": J{"owner": J{"type": "object", "properties": J{"address": J{"type": "object", "properties": J{"geo": simpleObj("geo")}}}}}}, "definitions", "animal"),
+			P(simpleObj("preAddr"), "definitions", "animalOwnerAddress"), P(simpleObj("preGeo"), "definitions", "AnimalOwnerAddressGeo"))
+		b.use("animal")
+		b.use("animalOwnerAddress")
+		b.use("AnimalOwnerAddressGeo")
 	})
 	add("twoInlineSameGeneratedName", "collide-names", func(b *BundleSpec, s int) {
 		b.Add(RootFile, P(J{"type": "object", "properties": J{"home_address": simpleObj("inl1")}}, "definitions", "member"),
